@@ -103,6 +103,8 @@ typedef struct {
 	uint8_t race_n;		/* (only without late_burst) an external thread sends race_n messages to thread race_dst, each held for a moment
 				 * right after its queue write, while tp_shutdown() is called: relaxed oracle, see drivers/C05_msg.cpp */
 	uint8_t race_dst, race_flags;
+	uint8_t pool_flags;	/* bit0 TP_S_F_BIND2CPU, bit1 TP_S_F_CLOEXEC */
+	uint8_t late_self;	/* the last message of the late burst sends to its own thread (flags 0 and FORCE) after the stop message was processed */
 	uint8_t nsenders;
 	c05_sender senders[C05_MAX_SENDERS];
 	tp_plans plans;
@@ -112,7 +114,8 @@ typedef struct {
 	int hang;		/* fence / completion ceiling hit */
 	uint32_t nsends;	/* total send ids used (senders first, then burst, then late burst) */
 	uint32_t nlate;		/* how many of them belong to the late burst */
-	uint32_t nrace;		/* how many of them raced with tp_shutdown() (the last ones) */
+	uint32_t nrace;		/* how many of them raced with tp_shutdown() */
+	uint32_t nself;		/* self-sends issued by the last late-burst callback (the very last ids) */
 	uint64_t tpt_ptr[17];	/* pointer value of each pool thread object, [16] = pvt */
 	tp_res_stats res;
 } c05_out;
@@ -121,7 +124,7 @@ void c05_run(const c05_scn *scn, c05_out *out);
 /* ---------------- C10: broadcasts ---------------- */
 #define C10_MAX_BCASTS 3
 typedef struct {
-	uint8_t in_pool, pool_idx;	/* caller */
+	uint8_t in_pool, pool_idx;	/* caller: 0 external thread, 1 pool thread pool_idx, 2 the thread of ANOTHER pool (outside this pool, but a pool thread) */
 	uint8_t api;			/* 0 bsend_ex, 1 cbsend */
 	uint32_t flags;			/* TP_MSG_F_* | TP_BMSG_F_* | TP_CBMSG_F_ONE_BY_ONE */
 	uint8_t src_own;
@@ -131,6 +134,7 @@ typedef struct {
 	uint8_t nthreads;
 	uint8_t skip_first;
 	uint16_t detach_mask;		/* threads never started (their pthread_create is made to fail) */
+	uint8_t pool_flags;		/* bit0 TP_S_F_BIND2CPU, bit1 TP_S_F_CLOEXEC */
 	uint8_t nbcasts;
 	c10_bcast b[C10_MAX_BCASTS];
 	tp_plans plans;
@@ -147,7 +151,7 @@ void c10_run(const c10_scn *scn, c10_out *out);
 /* ---------------- C11: pool life cycle ---------------- */
 enum { /* api ids logged in R_API_CALL / R_API_RET */
 	A_CREATE = 1, A_THREADS_CREATE, A_ATTACH_FIRST, A_SHUTDOWN, A_SHUTDOWN_WAIT, A_DESTROY, A_WAIT_EARLY, A_TCREATE_LATE,
-	A_ATTACH_LATE, A_WAIT_IN_POOL, A_DESTROY_IN_POOL
+	A_ATTACH_LATE, A_WAIT_IN_POOL, A_DESTROY_IN_POOL, A_WAIT_ATTACHED
 };
 typedef struct {
 	uint8_t nthreads;	/* 1..16 */
@@ -162,7 +166,9 @@ typedef struct {
 	uint8_t wait_early;	/* call tp_shutdown_wait before shutdown (must be EBUSY) */
 	uint8_t shutdown_mode;	/* 0 outside, 1 from a pool thread, 2 two external threads at once, 3 twice, 4 skipped (destroy only) */
 	uint8_t late_calls;	/* bit0 threads_create after shutdown (EBUSY), bit1 attach_first after shutdown (EBUSY) */
-	uint8_t wait_mode;	/* 0 none, 1 outside, 2 from a pool thread first (EDEADLK) then outside, 3 two external threads at once */
+	uint8_t wait_mode;	/* 0 none, 1 outside, 2 from a pool thread first (EDEADLK) then outside, 3 two external threads at once,
+				 * 4 (with attach_first) the formerly attached thread itself, after tp_thread_attach_first() returned */
+	uint8_t free_fd0;	/* descriptor 0 is closed while the pool lives (a daemon that closed stdin): the pool may own descriptor 0 */
 	uint8_t destroy_in_pool_first; /* tp_destroy from a pool thread before shutdown (must be EDEADLK) */
 	tp_plans plans;		/* schedule plan + resource faults armed from before tp_create */
 } c11_scn;
@@ -176,6 +182,8 @@ typedef struct {
 	tp_res_stats res_before;	/* snapshot before create (all zero expected) */
 	tp_res_stats res;		/* after destroy (before harness cleanup) */
 	uint32_t cb_after_destroy;	/* callbacks observed by the harness counters after destroy returned */
+	uint8_t attached_still_pool_thread;	/* tpt_get_current() != NULL in the foreign thread after tp_thread_attach_first() returned */
+	uint8_t fd0_was_freed;
 } c11_out;
 void c11_run(const c11_scn *scn, c11_out *out);
 
@@ -226,7 +234,7 @@ typedef struct {
 	uint8_t wait_mask;	/* channels whose next callback the harness waits for (ceiling) before settling */
 } c06b_cmd;
 typedef struct {
-	uint8_t kind[C06_MAX_CH];	/* 0 unused, 1 read on socketpair, 2 write on socketpair, 3 timer */
+	uint8_t kind[C06_MAX_CH];	/* 0 unused, 1 read on socketpair, 2 write on socketpair, 3 timer, 4 write on the write end of a pipe (peer = read end) */
 	uint16_t period_ms[C06_MAX_CH];	/* timers */
 	uint8_t ncmds;
 	c06b_cmd cmds[C06_MAX_CMDS];
@@ -317,6 +325,8 @@ typedef struct {
 				 * 4 (dispatch tasks) first callback returns NONE without stopping anything: the task must stay silent
 				 *   until the harness calls tp_task_enable(1) later, then it goes on like policy 0 */
 	uint8_t rearm;		/* when the window is full: reset it (offset = win_off, transfer_size = win_len) and CONTINUE */
+	uint8_t inject_on_recv;	/* receive tasks: after the first fragment every further fragment is written from inside the library's recv() call
+				 * (right after it returned data), i.e. it arrives between two reads of the same handler run */
 	uint8_t close_on_destroy;	/* the task runs on a dup() of the socket with TP_TASK_F_CLOSE_ON_DESTROY: the harness' own descriptor keeps the
 				 * open file description (and with it any forgotten epoll registration) alive after the destroy */
 	uint32_t sndbuf;	/* SO_SNDBUF of the task's socket for send tasks (0 = default) */
@@ -458,6 +468,7 @@ typedef struct {
 	uint8_t f_rr, f_initial_delay, f_every;
 	int32_t protocol;
 	uint8_t cut_after;	/* destroy from the owner thread once this many connect attempts were seen (0 = let it finish) */
+	uint8_t cut_close_only;	/* the cut only calls tp_task_ident_close() (documented as stop + close + ident = -1); the task stays allocated until the final step */
 	uint8_t arg_case;	/* 0 as generated, 1 conn_prms NULL, 2 tptask_ret NULL */
 	uint8_t known_timer_wa;	/* known finding active: the harness sets a non-zero timeout right before it destroys a connect_ex task so
 				 * that tp_task_stop() removes the retry-delay timer too (see notes/C16_conn.md) */
@@ -514,6 +525,7 @@ typedef struct {
 	uint32_t lst_accepted[C16C_MAX_ADDR];
 	uint16_t lst_port[C16C_MAX_ADDR];
 	uint8_t cut_done;		/* the harness destroyed the task mid-flight (cut_after) */
+	uint32_t natt_at_cut;		/* connect attempts seen when the cut had returned on the owner thread */
 	uint8_t finished;		/* 1 success reported, 2 terminal failure reported, 3 stopped by policy */
 	uint32_t pool_live_fds;		/* library-owned descriptors once the pool runs, before the task exists */
 	uint32_t sock_injected, accept_injected;	/* unit-local faults that actually fired */
